@@ -266,14 +266,18 @@ def run_property(pid, cfg, tier, seed, jobs, update_ledger, t0):
     bounded_cov.append({k: v for k, v in b.items() if k != 'failures'})
     if b.get('error'):
       crashes.append((b['name'], 'bounded stand-in error: ' + b['error']))
-    for f in b.get('failures', [])[:1]:
+    reported = False
+    for f in b.get('failures', []):
       k = None
       for kk in known_open:
-        if kk.get('function') == b['name'] and kk.get('inputs') == f.get('inputs'):
+        if kk.get('function') == b['name'] and kk.get('inputs') == f.get('inputs') and kk.get('violated') == f.get('violated'):
           k = kk
       if k:
         kf_lines.append(f"KNOWN-FINDING: property={pid} {k['what']}")
         continue
+      if reported:
+        continue
+      reported = True
       path = write_replay(b['name'] + json.dumps(f, sort_keys=True, default=str),
                           dict(property=pid, kind='failing-input', function=b['name'], obligation=b['name'] + '::' + f.get('violated', 'contract'),
                                inputs=f.get('inputs'), observed=f.get('observed'), bounded_module=b['module']))
